@@ -44,7 +44,9 @@ impl Family for C08Family {
         let faulty = index % 2 == 1;
         let wrap = *r.pick(&WRAPS);
         let mut store = gen_store_cfg(&mut r);
-        store.capability = Capability::Full;
+        if r.chance(2, 3) {
+            store.capability = Capability::Full;
+        }
         // the counter rules do not depend on which store keeps the record: the shipped stores run too
         let backend = match r.below(6) {
             0 => Backend::Memory,
